@@ -43,7 +43,7 @@ THOROUGH_SHAPES = {
 BOUNDS = {
     'quick': {'text_chars': '1..4 (1..3 for shapes with type n-grams)', 'shapes': sorted(SHAPES), 'weights': 'every value of the signed 16-bit range; bias in [-2^20, 2^20]',
               'text': 'every NUL-free scalar value per character (pattern characters as concrete classes, every other value symbolic per UTF-8 width)'},
-    'thorough': {'text_chars': '1..6 (1..4 with type n-grams)', 'shapes': sorted(SHAPES) + sorted(THOROUGH_SHAPES), 'weights': 'signed 16-bit', 'text': 'every NUL-free scalar value'},
+    'thorough': {'text_chars': '1..6 (1..4 with type n-grams)', 'shapes': sorted(SHAPES) + sorted(THOROUGH_SHAPES) + ['up to 24 random shapes drawn from VERIF_SEED (windows 1..4), texts of 1..3 characters'], 'weights': 'signed 16-bit', 'text': 'every NUL-free scalar value'},
 }
 OUTSIDE = ('for type window 3 the quick tier runs the real add_scores on a score table given by its specification (the real 8^6 table construction runs in the thorough tier); longer texts; model shapes (sets of patterns / window sizes) outside the catalogue; ill-formed models (weight counts other than one per covered position); '
            'daachorse itself (contract model: DESIGN.md appendix B); the 8^6 type-score table of window 3 only in thorough')
@@ -75,12 +75,25 @@ def jobs(tier, seed):
     for name, sh in shapes.items():
         for n in text_len_range(tier, sh):
             js.append({'name': '%s/n%d' % (name, n), 'shape': name, 'n': n})
+    if tier == 'thorough':
+        # model shapes drawn from VERIF_SEED (windows 1..4, unique n-grams, dictionary words): the property quantifies over all well-formed models
+        import random
+        rnd = random.Random(seed * 257 + 3)
+        for k in range(24):
+            sh = P.random_shape(rnd, tags=False, max_w=4)
+            if not any(sh.get(x) for x in ('char', 'type', 'dict')):
+                continue
+            for n in (1, 2, 3):
+                js.append({'name': 'random%02d/n%d' % (k, n), 'shape': 'random%02d' % k, 'shape_def': sh, 'n': n})
     js.sort(key=lambda j: -j['n'])
     return js
 
 
+_EXTRA_SHAPES = {}
+
+
 def get_shape(name):
-    return SHAPES.get(name) or THOROUGH_SHAPES.get(name) or CACHE3_SHAPES[name]
+    return SHAPES.get(name) or THOROUGH_SHAPES.get(name) or CACHE3_SHAPES.get(name) or _EXTRA_SHAPES[name]
 
 
 # ---------------------------------------------------------------------------------------------
@@ -157,6 +170,8 @@ def build(e, prog, shape, predict_tags=False, concrete=None):
 
 def make(e, progs, job):
     prog = progs['core']
+    if job.get('shape_def'):
+        _EXTRA_SHAPES[job['shape']] = job['shape_def']
     shape = get_shape(job['shape'])
     st = {}
 
